@@ -206,6 +206,34 @@ def collectFields : Dict → List (Key × Value) → Dict
   | d, (k, v) :: fs => collectFields (collect (addKey d k) v) fs
 end
 
+mutual
+/-- MIRROR, literal one-pass form of `encodeValue`/`encodeValueArray`/`encodeValueObject`
+    (encoding.go:342-389): the `MetadataBuilder` is threaded through the traversal, `Add` returns the
+    index of the (possibly new) name, children are encoded in field order, then the entries are
+    sorted by name. `encSt_eq` (VariantLemmas) shows it equals the two-pass form `(collect, enc)`. -/
+def encSt : Dict → Value → Dict × Bytes
+  | d, .prim p => (d, encPrim p)
+  | d, .arr es =>
+    let r := encStList d es
+    (r.1, buildArray r.2)
+  | d, .obj fs =>
+    let r := encStFields d fs
+    (r.1, buildObject (isort (·.name) r.2))
+def encStList : Dict → List Value → Dict × List Bytes
+  | d, [] => (d, [])
+  | d, e :: es =>
+    let r1 := encSt d e
+    let r2 := encStList r1.1 es
+    (r2.1, r1.2 :: r2.2)
+def encStFields : Dict → List (Key × Value) → Dict × List Entry
+  | d, [] => (d, [])
+  | d, (k, v) :: fs =>
+    let d0 := addKey d k
+    let r1 := encSt d0 v
+    let r2 := encStFields r1.1 fs
+    (r2.1, ⟨findIdx k d0, k, r1.2⟩ :: r2.2)
+end
+
 /-- the dictionary a fresh `MetadataBuilder` holds after `Encode(&b, v)`. -/
 def metaOf (v : Value) : Dict := collect [] v
 
